@@ -594,6 +594,9 @@ func (g *Gen) relatedPath(def string) string {
 
 func (g *Gen) updater(bulk bool) []interface{} {
 	k := g.r.Intn(100)
+	if g.P.Name == "ids" && g.chance(0.2) {
+		k = 99 // the ids profile aims at _id rewrites
+	}
 	path := g.relatedPath(g.pick([]string{"x", "xy", "s", "n.a", "n", "k", "arr", "new", "t", "x.y"}))
 	switch {
 	case k < 30:
@@ -612,6 +615,9 @@ func (g *Gen) updater(bulk bool) []interface{} {
 		return []interface{}{"nil"}
 	case g.chance(g.P.Invalid):
 		// an update producing an invalid document: rewrites _id / breaks _expiresAt
+		if g.chance(0.35) { // the same UUID spelled differently is a different _id
+			return []interface{}{"idform", g.pick([]string{"upper", "braces", "urn"})}
+		}
 		if g.chance(0.5) {
 			return []interface{}{"set", B("_id"), AStr(g.pick(g.ids))}
 		}
@@ -750,6 +756,9 @@ func (g *Gen) event(op string) E {
 		did := id
 		if g.chance(g.P.Invalid * 0.3) {
 			did = g.pick(g.ids)
+			if g.chance(0.4) {
+				did = idForm(id, g.pick([]string{"upper", "braces", "urn"}))
+			}
 		}
 		return E{"op": op, "c": c, "id": B(id), "docs": []interface{}{g.doc(AStr(did))}}
 	case "UpdateById":
@@ -875,6 +884,42 @@ func sortStrings(s []string) {
 	}
 }
 
+// indexCatalogSweep: three to five indexes on one collection created in a random order, one of them
+// dropped (any position), then every catalog question and every catalog operation on each field.
+func (g *Gen) indexCatalogSweep() []E {
+	c := g.colls[0]
+	var evs []E
+	fields := []string{"x", "xy", "n", "n.a", "s", "k"}
+	g.r.Shuffle(len(fields), func(i, j int) { fields[i], fields[j] = fields[j], fields[i] })
+	fields = fields[:3+g.r.Intn(3)]
+	for _, f := range fields {
+		if !g.idx[c][f] {
+			g.idx[c][f] = true
+			evs = append(evs, E{"op": "CreateIndex", "c": c, "f": B(f)})
+		}
+	}
+	evs = append(evs, g.event("Insert"))
+	drop := fields[g.r.Intn(len(fields))]
+	delete(g.idx[c], drop)
+	evs = append(evs, E{"op": "DropIndex", "c": c, "f": B(drop)}, E{"op": "ListIndexes", "c": c})
+	for _, f := range fields {
+		evs = append(evs, E{"op": "HasIndex", "c": c, "f": B(f)})
+	}
+	for _, f := range fields {
+		if g.chance(0.5) {
+			evs = append(evs, E{"op": "CreateIndex", "c": c, "f": B(f)}) // ErrIndexExist unless it is the dropped one
+			g.idx[c][f] = true
+		} else {
+			evs = append(evs, E{"op": "DropIndex", "c": c, "f": B(f)}) // ErrIndexNotExist for the dropped one
+			delete(g.idx[c], f)
+		}
+		evs = append(evs, E{"op": "ListIndexes", "c": c})
+	}
+	g.setFocus(c)
+	evs = append(evs, g.event("FindAll"), g.event("Derived"))
+	return evs
+}
+
 // History generates one abstract history.
 func (g *Gen) History() []E {
 	var evs []E
@@ -895,6 +940,9 @@ func (g *Gen) History() []E {
 				evs = append(evs, E{"op": "CreateIndex", "c": c, "f": B(f)})
 			}
 		}
+	}
+	if g.P.Name == "indexcat" && g.chance(0.5) {
+		evs = append(evs, g.indexCatalogSweep()...)
 	}
 	for len(evs) < g.P.Ops {
 		op := g.weightedOp()
